@@ -348,10 +348,11 @@ int main(int argc, char** argv)
 	family<momo::HashBucketLimP4<1>, momo::HashBucketLimP4<1>>(c, rng, s, "LimP4<1>", "p4", maxL - 1);
 	family<momo::HashBucketOne<1>, momo::HashBucketOne<1>>(c, rng, s, "One<1>", "one", maxL - 1);
 #elif C12_PART == 3 || C12_PART == 4
-	family<momo::HashBucketLimP4<4>, momo::HashBucketLimP4<4>>(c, rng, s, "LimP4<4>", "p4", maxL - 1);
-	family<momo::HashBucketLimP4<3>, momo::HashBucketLimP4<3>>(c, rng, s, "LimP4<3>", "p4", maxL - 2);
-	family<momo::HashBucketLimP4<2>, momo::HashBucketLimP4<2>>(c, rng, s, "LimP4<2>", "p4", maxL - 2);
-	family<momo::HashBucketLimP4<1>, momo::HashBucketLimP4<1>>(c, rng, s, "LimP4<1>", "p4", maxL - 2);
+	const unsigned pL = c.thorough ? 15 : maxL - 1;	// (the ledger manager makes these runs slower than parts 1 / 2)
+	family<momo::HashBucketLimP4<4>, momo::HashBucketLimP4<4>>(c, rng, s, "LimP4<4>", "p4", pL);
+	family<momo::HashBucketLimP4<3>, momo::HashBucketLimP4<3>>(c, rng, s, "LimP4<3>", "p4", pL - 1);
+	family<momo::HashBucketLimP4<2>, momo::HashBucketLimP4<2>>(c, rng, s, "LimP4<2>", "p4", pL - 1);
+	family<momo::HashBucketLimP4<1>, momo::HashBucketLimP4<1>>(c, rng, s, "LimP4<1>", "p4", pL - 1);
 	// ledger of the manager: everything given back (C03 piggyback)
 	if (!mm().live.empty() || mm().badDealloc) c.fail("C03 leak: C12 table part %d: %zu blocks outstanding, %zu bad deallocations", (int)C12_PART, mm().live.size(), mm().badDealloc);
 #else
